@@ -149,7 +149,11 @@ LitContexts ==
 \* long documents: more tokens than the scanner queue (16) and deeper than the push-back stack (4)
 Long == {Coll(kind, lay, [j \in 1..n |-> Lit(AnInt)]) : kind \in {"List", "Stack", "Queue"}, lay \in {"inline", "multi"}, n \in {9, 17, 40}}
 
-Docs == Flat \cup Nested(Depth) \cup LitContexts \cup Long
+\* the same sub-collection twice (C10 also builds these with one shared object)
+Twice == {Coll(kind, lay, <<x, x>>) : kind \in {"List", "Array", "Stack"}, lay \in {"inline", "multi"}, x \in Reps} \cup
+         {Coll("Catalog", "multi", <<Assoc(Lit(AnInt), x), Assoc(Lit(AStr), x)>>) : x \in Reps}
+
+Docs == Flat \cup Nested(Depth) \cup LitContexts \cup Long \cup Twice
 
 ----------------------------------------------------------------------------
 (* Abstract token sequences for the totality of the parser (C12) *)
